@@ -32,6 +32,7 @@ def run(repo, report, tier):
     report.guard("C05.R4", "make_pipeline_from_args", builder_rules.c05_r4_override, repo, report, tier)
     report.guard("C05.R5", "make_pipeline_from_args", builder_rules.c05_r5_lengths, repo, report, tier)
     report.guard("C05.R6", "PairedAdapterCutter", r6_pair_adapters, repo, report)
+    report.guard("C05.R3", "PairedEndRenamer", r3_renamer_keeps_ids, repo, report)
 
 
 # ---------------------------------------------------------------------------
@@ -410,3 +411,41 @@ def r6_pair_adapters(repo, report):
     names = [e.id for e in unp[0].targets[0].elts] if unp else []
     ok = len(names) == 2 and appends.get(f"{cps[3]}.matches.append") == names[0] and appends.get(f"{cps[4]}.matches.append") == names[1]
     report.ob("C05.R6", "PairedAdapterCutter.__call__ registers match i on info i", ok, facts={"appends": appends, "unpacked": names}, expected="info1.matches.append(match1); info2.matches.append(match2)", loc=repo.loc(call))
+
+
+def r3_renamer_keeps_ids(repo, report):
+    """--rename in paired mode: new names are assigned only after record_names_match(new name 1, new name 2) held, on
+    every path (otherwise the k-th records of the two output files carry different IDs)."""
+    c, fn = repo.need_method("PairedEndRenamer", "__call__")
+    ps = params(fn)
+
+    def hook(ex, node, env):
+        cn = chain(node.func)
+        if cn == "self._rename":
+            return Tup([Obj("NEW1", nonnull=True), Obj("NEW2", nonnull=True)])
+        if cn == "record_names_match" and len(node.args) == 2:
+            a, b = vkey(ex.ev(node.args[0], env)), vkey(ex.ev(node.args[1], env))
+            return Const(ex.ask_bool(f"names_match:{a}:{b}"))
+        if cn and cn.startswith("Renamer.parse_name"):
+            return Obj("PARSED", nonnull=True)
+        return None
+
+    env = {"self": Obj("self", nonnull=True), ps[1]: Obj("R1", nonnull=True), ps[2]: Obj("R2", nonnull=True), ps[3]: Obj("I1", nonnull=True), ps[4]: Obj("I2", nonnull=True)}
+    rows = explore(repo, strip_docstring(fn.body), env, call_hook=hook, inline=False)
+    bad = []
+    n = 0
+    for r in rows:
+        assigned = {e[1]: e[2] for e in r.effects if e[0] == "store" and e[1] in ("R1.name", "R2.name")}
+        if not assigned:
+            continue
+        n += 1
+        if assigned != {"R1.name": "NEW1", "R2.name": "NEW2"}:
+            bad.append(("names assigned", assigned))
+        if r.valuation.get("names_match:NEW1:NEW2") is not True:
+            bad.append(("new names assigned without having been compared", r.describe()["valuation"]))
+    mism = [r for r in rows if r.valuation.get("names_match:NEW1:NEW2") is False and r.exit[0] != "raise"]
+    if mism:
+        bad.append(("new names that do not match do not raise", mism[0].describe()["valuation"]))
+    report.ob("C05.R3", "PairedEndRenamer.__call__ keeps the IDs of a pair identical", not bad and n >= 1, facts={"paths": len(rows), "assigning_paths": n, "problems": [str(b)[:240] for b in bad[:2]]},
+              expected="read1.name, read2.name = the renamed names only if record_names_match(name1, name2); otherwise InvalidTemplate", loc=repo.loc(fn), cases=len(rows),
+              why=str(bad[0])[:200] if bad else "")
